@@ -144,6 +144,13 @@ func vcNumClass(n uint) string {
 	return "plain"
 }
 
+type vcKept struct {
+	d    *PreRuntimeDigest
+	want []byte
+}
+
+var vcKeptPre []vcKept
+
 func TestVerifChainTypes(t *testing.T) {
 	res := vNewResult("C14")
 	defer res.Write(t)
@@ -284,6 +291,21 @@ func TestVerifChainTypes(t *testing.T) {
 					// and through the pre-runtime digest wrapper
 					if prd, err := toPreRuntimeDigest(val); err != nil || !bytes.Equal(prd.Data, exp) || prd.ConsensusEngineID != BabeEngineID {
 						fail("ToPreRuntimeDigest", vHex(exp), fmt.Sprint(prd, err), "C14/babepre/to-pre-runtime")
+					} else {
+						// a digest stays what it was: every pre-runtime digest produced so far (they live in headers while the
+						// next slot's is being built) still holds its own bytes
+						vcKeptPre = append(vcKeptPre, vcKept{prd, append([]byte(nil), exp...)})
+						for i, k := range vcKeptPre {
+							res.Cmp()
+							if !bytes.Equal(k.d.Data, k.want) {
+								fail("earlier PreRuntimeDigest", vHex(k.want), vHex(k.d.Data), "C14/babepre/earlier-digest-changed")
+								vcKeptPre = append(vcKeptPre[:i], vcKeptPre[i+1:]...)
+								break
+							}
+						}
+						if len(vcKeptPre) > 64 {
+							vcKeptPre = vcKeptPre[len(vcKeptPre)-64:]
+						}
 					}
 				case "babecons", "grandpacons":
 					var it vcItem
